@@ -1,6 +1,7 @@
 package lens
 
 import (
+	"bytes"
 	"context"
 	"crypto/x509"
 	"encoding/pem"
@@ -350,6 +351,19 @@ func (l c07) Exec(env *core.Env) *core.Result {
 					res.Violate("C07/verifyblob-returned-wrong-descriptor", key, "notation.VerifyBlob returned %+v for a blob whose descriptor is %+v", gotDesc, want)
 				} else if !(reflect.DeepEqual(gotDesc.Annotations, meta) || (len(gotDesc.Annotations) == 0 && len(meta) == 0)) {
 					res.Violate("C07/verifyblob-returned-wrong-descriptor", key+" annotations", "notation.VerifyBlob returned annotations %v, signed metadata %v", gotDesc.Annotations, meta)
+				}
+				// the same signature and the same options next to another blob: "returns the descriptor of the
+				// blob that was verified" - whatever comes back as a success must describe the bytes presented
+				other := append(append([]byte{}, content...), 'x')
+				if len(content) > 0 && op.Int(9)%2 == 0 {
+					other = append([]byte{}, content...)
+					other[int(op.Int(9))%len(other)] ^= 0x20
+				}
+				d2, o2, err2 := notation.VerifyBlob(ctx, v, bytes.NewReader(other), sig, notation.VerifyBlobOptions{
+					BlobVerifierVerifyOptions: notation.BlobVerifierVerifyOptions{SignatureMediaType: format, UserMetadata: meta}, ContentMediaType: mt})
+				res.Probe("same_signature_next_to_another_blob")
+				if err2 == nil && (o2 == nil || o2.Error == nil) && d2.Digest != want.Digest.Algorithm().FromBytes(other) {
+					res.Violate("C07/verifyblob-descriptor-not-of-the-presented-blob", key, "notation.VerifyBlob succeeded for %d other bytes and returned the descriptor %s of the blob that was signed", len(other), d2.Digest)
 				}
 			} else if uerr != nil || !reflect.DeepEqual(um, wantAnn) {
 				res.Violate("C07/user-metadata-readback-differs", key, "UserMetadata() = %v, %v; signed annotations %v", um, uerr, wantAnn)
